@@ -478,6 +478,33 @@ def main():
             chk.outcome('accessor-mismatch')
         else:
             chk.outcome('accessors-ok')
+    # several schemas in one file (USE / REFERENCE between them, items of every kind, renamed): the generated code builds, and every entity of
+    # every schema is registered
+    from vlib import gfam
+    multis = [('multi', gfam.MULTI), ('multi_items', gfam.MULTI_ITEMS)] + [(n, t) for n, t, ok in gfam.interface_family(args.tier) if ok][:(6 if args.tier == 'quick' else 72)] + \
+        [(n, t) for n, t, ok in gfam.interface_paths() if ok]
+    for name, text in multis:
+        chk.count(states=1, transitions=1)
+        chk.cls('multi-schema-file')
+        try:
+            ml = build.schema_lib(text, 'plain', tools=False)
+        except build.GenError as e:
+            chk.outcome('does-not-build')
+            chk.violation('%s/does-not-build/multi-schema-file/%s' % (PID, e.stage), 'generated code of the multi-schema file %s does not build (%s): %s' % (name, e.stage, e.out[-300:].decode('latin1')), {'family': name, 'schema': text[:4000]})
+            continue
+        want = sorted(set(x.lower() for x in re.findall(r'(?im)^\s*ENTITY\s+([A-Za-z][A-Za-z0-9_]*)', text)))
+        try:
+            with drv.Driver('dictdump', ml, timeout=60) as d:
+                got = sorted(set(l.decode('latin1').split(' ')[1] for l in d.cmd('entities') if l.startswith(b'E ')))
+        except drv.Crash as e:
+            chk.outcome('dictionary-walk-crash')
+            chk.violation('%s/dictionary-walk-crash/%s/%s/multi-schema-file' % ((PID,) + e.key()), 'walking the dictionary of %s crashes (%s in %s)' % ((name,) + e.key()), {'family': name, 'schema': text[:4000]})
+            continue
+        if got != want:
+            chk.outcome('entities-differ')
+            chk.violation('%s/multi-schema-file/entities-registered' % PID, '%s: registered %s, declared %s' % (name, got, want), {'family': name, 'schema': text[:4000]})
+        else:
+            chk.outcome('multi-schema-ok')
     if not chk.outcomes:
         chk.harness_error('vacuous')
     sys.exit(chk.finish())
